@@ -2,8 +2,10 @@ package props
 
 import (
 	"fmt"
+	"sort"
 	"strings"
 
+	ds "github.com/sealdice/dicescript"
 
 	"verif/internal/fw"
 	"verif/internal/gen"
@@ -24,6 +26,7 @@ type c03Obs struct {
 	vars    string
 	st      string
 	seed    string
+	later   string // what the computed values / parameterless functions left in variables do when used afterwards
 }
 
 func c03Run(cfg Cfg, setup []string, src string) c03Obs {
@@ -54,6 +57,40 @@ func c03Run(cfg Cfg, setup []string, src string) c03Obs {
 	o.vars = CanonVars(vm)
 	o.st = strings.Join(log.Calls, "\n")
 	o.seed = seedOf(vm)
+	// variable effects include what stored code does later: evaluate every computed value and
+	// parameterless function the run left behind (same generator state on both twins)
+	var names []string
+	vm.Attrs.Range(func(k string, v *ds.VMValue) bool {
+		if v == nil {
+			return true
+		}
+		if v.TypeId == ds.VMTypeComputedValue {
+			names = append(names, k)
+		} else if fd, ok := v.ReadFunctionData(); ok && len(fd.Params) == 0 {
+			names = append(names, k+"()")
+		}
+		return true
+	})
+	sort.Strings(names)
+	var sb strings.Builder
+	for _, nm := range names {
+		if len(nm) == 0 || strings.ContainsAny(nm, " :'\"") {
+			continue
+		}
+		var e2 error
+		pv, _ := fw.Guard(func() { e2 = vm.Run(nm) })
+		switch {
+		case pv != nil:
+			sb.WriteString(nm + " => PANIC " + fmt.Sprint(pv) + "\n")
+		case e2 != nil:
+			sb.WriteString(nm + " => error\n")
+		default:
+			d := ""
+			fw.Guard(func() { d = vm.GetDetailText() })
+			sb.WriteString(nm + " => " + Canon(vm.Ret) + " | " + d + "\n")
+		}
+	}
+	o.later = sb.String()
 	return o
 }
 
@@ -79,7 +116,17 @@ func c03Input(r *fw.Rand) (string, string) {
 		pre := r.Pick([]string{"", "", "a = 0; b = 1; ", "x = [1, 2]; ", "&cv = d6; "})
 		last := r.Pick([]string{"0 ? 1", "1 ? 2", "a ? 'x'", "0 ? 1, 0 ? 2", "1 ? 2, 0 ? 3", "b ? 1, a ? 2", "0 || 0", "1 && 0", "a ?? 3", "x", "[1, 2]", "{'k': 1}", "f", "1 + 2", "d6", "x[0]", "-1", "`t{a}`", "'s'", "3 > 2", "cv"})
 		op := r.Pick([]string{",", ", ", " ,", "||", " || ", "&&", " && ", "?", " ? ", ":", " : ", "+", " + ", "-", "*", "[", "(", ".", "..", "??", " ?? ", "|", "&", "=", "==", " == ", "<", ",,", ";", "\n"})
-		operand := r.Pick([]string{"d20", "2d6", "b", "x", "3", "d100 理由", "[d4]", "f(d6)", "cv", "(d8", "`{d10}`", "'s", "a = d12", "力量"})
+		operand := r.Pick([]string{"d20", "2d6", "b", "x", "3", "d100 理由", "[d4]", "f(d6)", "cv", "(d8", "`{d10}`", "'s", "a = d12", "力量",
+			"`{ // #EnableDice wod false\n2a5 }`", "`{ // #EnableDice coc false\n1 }`", "`{% // #EnableDice fate true\nf %}", "`{ // #EnableDice wod true\na5 }"})
+		if r.P(1, 4) {
+			last = r.Pick([]string{"b2", "p3", "a5", "f", "2a5", "3c8"})
+		}
+		if r.P(1, 5) {
+			// code kept for later (computed values, functions) that ends where the tail begins
+			last = r.Pick([]string{"&kv = (2)d(3)", "&kv = 2d6", "&kv = d6 + (1)", "&kv = [d4][0]", "&kv = `{d6}`", "func kf() { (2)d(3) }", "func kf() { 2d6 + 1 }", "&kv = 3d6kh(2)", "&kv = b2", "&kv = (1)"})
+			op = r.Pick([]string{" ", "  ", "\n", "\t", " \n ", "", ";", " ; "})
+			operand = r.Pick([]string{"tail", "理由", "reason d20", "d20", "(", "[1", "'s", "+", "kv", "3"})
+		}
 		brk := r.Pick([]string{"", " ?", " ? )", " ? 1 :", " :", "(", "[", " 理由", " ? d4", ",", " ? 1, ", ")", "]"})
 		return pre + last + op + operand + brk, "continuation"
 	}
@@ -220,6 +267,9 @@ func c03Case(w *fw.W, idx int, r *fw.Rand) {
 		}
 		if a.seed != b.seed && stable(func(o c03Obs) string { return o.seed }) {
 			report("generator state", "seed", a.seed, b.seed)
+		}
+		if a.later != b.later && a.seed == b.seed && stable(func(o c03Obs) string { return o.later }) {
+			report("later use of the stored computed values/functions", "later", a.later, b.later)
 		}
 	}
 	if len(a.matched) > 0 {
